@@ -330,3 +330,62 @@ package streams
 //@   loop 1 vars p []byte, dataLen int
 //@   loop 1 invariant 0 <= len(p) && len(p) <= dataLen && G_ws_sent(wstc.Conn) == old(G_ws_sent(wstc.Conn)) + dataLen - len(p)
 //@   loop 1 decreases len(p)
+
+// ===================================================================================================
+// C01: the fall-back copy loops of the wrappers (taken when the wrapped object has no ReadFrom / WriteTo of its
+// own) move the bytes between exactly the two ends they were given, through a buffer that belongs to this call
+// alone (allocated in it): a buffer shared between two copies running at the same time would mix their bytes.
+//@ func (ns *NamedConnection) WriteTo
+//@   property C01
+//@   callsite io.CopyBuffer#1 (arg0 io.Writer, arg2 []byte) require spec_sameref(arg0, w) && spec_fresh(arg2) && len(arg2) > 0      :writes_to_the_given_sink_through_a_buffer_of_its_own
+//@ func (ns *NamedConnection) ReadFrom
+//@   property C01
+//@   callsite io.CopyBuffer#1 (arg1 io.Reader, arg2 []byte) require spec_sameref(arg1, r) && spec_fresh(arg2) && len(arg2) > 0      :reads_from_the_given_source_through_a_buffer_of_its_own
+//@ func (ns *NamedReader) WriteTo
+//@   property C01
+//@   callsite io.CopyBuffer#1 (arg0 io.Writer, arg2 []byte) require spec_sameref(arg0, w) && spec_fresh(arg2) && len(arg2) > 0      :writes_to_the_given_sink_through_a_buffer_of_its_own
+//@ func (ns *NamedStream) WriteTo
+//@   property C01
+//@   callsite io.CopyBuffer#1 (arg0 io.Writer, arg2 []byte) require spec_sameref(arg0, w) && spec_fresh(arg2) && len(arg2) > 0      :writes_to_the_given_sink_through_a_buffer_of_its_own
+//@ func (ns *NamedStream) ReadFrom
+//@   property C01
+//@   callsite io.CopyBuffer#1 (arg1 io.Reader, arg2 []byte) require spec_sameref(arg1, r) && spec_fresh(arg2) && len(arg2) > 0      :reads_from_the_given_source_through_a_buffer_of_its_own
+//@ func (ns *NamedWriter) ReadFrom
+//@   property C01
+//@   callsite io.CopyBuffer#1 (arg1 io.Reader, arg2 []byte) require spec_sameref(arg1, r) && spec_fresh(arg2) && len(arg2) > 0      :reads_from_the_given_source_through_a_buffer_of_its_own
+//@ func (sc *ReadWriteCloser) WriteTo
+//@   property C01
+//@   callsite io.CopyBuffer#1 (arg0 io.Writer, arg2 []byte) require spec_sameref(arg0, w) && spec_fresh(arg2) && len(arg2) > 0      :writes_to_the_given_sink_through_a_buffer_of_its_own
+//@ func (sc *ReadWriteCloser) ReadFrom
+//@   property C01
+//@   callsite io.CopyBuffer#1 (arg1 io.Reader, arg2 []byte) require spec_sameref(arg1, r) && spec_fresh(arg2) && len(arg2) > 0      :reads_from_the_given_source_through_a_buffer_of_its_own
+//@ func (ns *SafeConnection) WriteTo
+//@   property C01
+//@   callsite io.CopyBuffer#1 (arg0 io.Writer, arg2 []byte) require spec_sameref(arg0, w) && spec_fresh(arg2) && len(arg2) > 0      :writes_to_the_given_sink_through_a_buffer_of_its_own
+//@ func (ns *SafeConnection) ReadFrom
+//@   property C01
+//@   callsite io.CopyBuffer#1 (arg1 io.Reader, arg2 []byte) require spec_sameref(arg1, r) && spec_fresh(arg2) && len(arg2) > 0      :reads_from_the_given_source_through_a_buffer_of_its_own
+//@ func (ns *SafeReader) WriteTo
+//@   property C01
+//@   callsite io.CopyBuffer#1 (arg0 io.Writer, arg2 []byte) require spec_sameref(arg0, w) && spec_fresh(arg2) && len(arg2) > 0      :writes_to_the_given_sink_through_a_buffer_of_its_own
+//@ func (ns *SafeStream) WriteTo
+//@   property C01
+//@   callsite io.CopyBuffer#1 (arg0 io.Writer, arg2 []byte) require spec_sameref(arg0, w) && spec_fresh(arg2) && len(arg2) > 0      :writes_to_the_given_sink_through_a_buffer_of_its_own
+//@ func (ns *SafeStream) ReadFrom
+//@   property C01
+//@   callsite io.CopyBuffer#1 (arg1 io.Reader, arg2 []byte) require spec_sameref(arg1, r) && spec_fresh(arg2) && len(arg2) > 0      :reads_from_the_given_source_through_a_buffer_of_its_own
+//@ func (ns *SafeWriter) ReadFrom
+//@   property C01
+//@   callsite io.CopyBuffer#1 (arg1 io.Reader, arg2 []byte) require spec_sameref(arg1, r) && spec_fresh(arg2) && len(arg2) > 0      :reads_from_the_given_source_through_a_buffer_of_its_own
+//@ func (sc *SimulatedConnection) WriteTo
+//@   property C01
+//@   callsite io.CopyBuffer#1 (arg0 io.Writer, arg2 []byte) require spec_sameref(arg0, w) && spec_fresh(arg2) && len(arg2) > 0      :writes_to_the_given_sink_through_a_buffer_of_its_own
+//@ func (sc *SimulatedConnection) ReadFrom
+//@   property C01
+//@   callsite io.CopyBuffer#1 (arg1 io.Reader, arg2 []byte) require spec_sameref(arg1, r) && spec_fresh(arg2) && len(arg2) > 0      :reads_from_the_given_source_through_a_buffer_of_its_own
+//@ func (sc *StreamWrappedConnection) WriteTo
+//@   property C01
+//@   callsite io.CopyBuffer#1 (arg0 io.Writer, arg2 []byte) require spec_sameref(arg0, w) && spec_fresh(arg2) && len(arg2) > 0      :writes_to_the_given_sink_through_a_buffer_of_its_own
+//@ func (sc *StreamWrappedConnection) ReadFrom
+//@   property C01
+//@   callsite io.CopyBuffer#1 (arg1 io.Reader, arg2 []byte) require spec_sameref(arg1, r) && spec_fresh(arg2) && len(arg2) > 0      :reads_from_the_given_source_through_a_buffer_of_its_own
